@@ -123,7 +123,39 @@ def base_weights(nc):
 # -------------------------------------------------------------------------------------------------
 # building an object of the grammar through the public API
 # -------------------------------------------------------------------------------------------------
-def build(A, kind, shape, over, seed, tag=None, bonds=None):
+DTYPE_HOOK = {"float32": np.float32, "float64": np.float64, ">f4": ">f4", "<f4": "<f4", "float16": np.float16, ">f8": ">f8"}
+# measured on the repaired tree: the documented subclass hook `class M(ml.Molecule, coords_dtype=...)`
+# accepts these (an integer dtype fails at construction: NaN fill); ConformerEnsemble has no such hook;
+# the coords / atomic_charges / weights setters and constructor keywords convert to float64 whatever
+# dtype, byte order or layout the caller's array has.
+ASSIGN_FORMS = ["float32", ">f4", ">f8", "float16", "non-contiguous", "fortran-order"]
+_SUBCLS = {}
+
+
+def molecule_class(dtname):
+    if dtname not in _SUBCLS:
+        _SUBCLS[dtname] = type(f"Molecule_{dtname.strip('<>')}_{len(_SUBCLS)}", (Molecule,), {}, coords_dtype=DTYPE_HOOK[dtname])
+    return _SUBCLS[dtname]
+
+
+def _as_form(a, form):
+    """the same values, handed over as an array of another dtype / byte order / memory layout"""
+    a = np.asarray(a, dtype=np.float64)
+    if form is None:
+        return a
+    if form in ("float32", ">f4", ">f8", "float16"):
+        return a.astype(form)
+    if form == "non-contiguous":
+        big = np.zeros(tuple(2 * n for n in a.shape), dtype=np.float64)
+        v = big[tuple(slice(None, None, 2) for _ in a.shape)]
+        v[...] = a
+        return v
+    if form == "fortran-order":
+        return np.asfortranarray(a)
+    raise HarnessError(form)
+
+
+def build(A, kind, shape, over, seed, tag=None, bonds=None, dtype=None, assign=None):
     """kind: 'mol' | 'ens' | 'conf' (a Conformer view of an ensemble).  shape = (na, nb, nc).
     over = {dimension: value name}.  bonds = explicit bond topology [[a1, a2, {field: value name}], ...]
     (replaces the nb base bonds).  Returns the object to store.
@@ -146,7 +178,7 @@ def build(A, kind, shape, over, seed, tag=None, bonds=None):
             el = A["atom.element"][over["atom.element"]]
         atoms.append(Atom(el))
     if kind == "mol":
-        obj = Molecule(atoms)
+        obj = (molecule_class(dtype) if dtype else Molecule)(atoms)
         C = base_coords(1, na)[0]
         Q = base_charges(1, na)[0]
         if na:
@@ -154,8 +186,8 @@ def build(A, kind, shape, over, seed, tag=None, bonds=None):
                 C[fa, 0] = A["coords.val"][over["coords.val"]]
             if "charges.val" in over:
                 Q[fa] = A["charges.val"][over["charges.val"]]
-            obj.coords = C
-            obj.atomic_charges = Q
+            obj.coords = _as_form(C, assign)
+            obj.atomic_charges = _as_form(Q, assign)
     else:
         if na:
             obj = ConformerEnsemble(atoms, n_conformers=nc)
@@ -171,9 +203,9 @@ def build(A, kind, shape, over, seed, tag=None, bonds=None):
                 Q[fc, fa] = A["charges.val"][over["charges.val"]]
             if "weights.val" in over:
                 W[fc] = A["weights.val"][over["weights.val"]]
-        obj.coords = C
-        obj.atomic_charges = Q
-        obj.weights = W
+        obj.coords = _as_form(C, assign)
+        obj.atomic_charges = _as_form(Q, assign)
+        obj.weights = _as_form(W, assign)
     # bonds: explicit Bond objects, appended in the given order and direction
     if bonds is None:
         blist = []
@@ -370,7 +402,10 @@ def compare(exp, got, enc, conf_source=False):
                 ea = np.asarray(e, dtype=float).ravel()
                 ga = np.asarray(g, dtype=float).ravel()
                 bad = [i for i in range(len(ea)) if not f32eq(ea[i], ga[i])]
-                out.append((k, f"{k}:differs[written={vclass(float(ea[bad[0]]))}]"))
+                # one element: the class of the value written; several: the block as a whole is wrong
+                # (which element comes first would depend on the seed's focus atom)
+                cls_ = vclass(float(ea[bad[0]])) if len(bad) == 1 else "several-elements"
+                out.append((k, f"{k}:differs[written={cls_}]"))
             continue
         if isinstance(e, list) and k.startswith(("atom.", "bond.")):
             if not isinstance(g, list) or len(e) != len(g):
@@ -491,7 +526,7 @@ def roundtrip_batch(libs, lib, enc, objs):
 # case generation
 # -------------------------------------------------------------------------------------------------
 def case_key(c):
-    return (c["kind"], tuple(c["shape"]), tuple(sorted(c["over"].items())), repr(c.get("bonds")))
+    return (c["kind"], tuple(c["shape"]), tuple(sorted(c["over"].items())), repr(c.get("bonds")), c.get("dtype"), c.get("assign"))
 
 
 def gen_field_cases(A, thorough, seed):
@@ -575,6 +610,31 @@ def gen_topology_cases(thorough):
     return cases
 
 
+def gen_dtype_cases(A, thorough):
+    """the dtype of the stored object's own arrays (Molecule subclasses declared through the
+    coords_dtype hook) and the dtype / byte order / layout of arrays handed to the setters"""
+    cases = []
+    vals = [v for v in A["coords.val"]]
+    for dt in DTYPE_HOOK:
+        for shape in ([1, 0, 1], [2, 1, 1], [3, 2, 1]):
+            cases.append({"kind": "mol", "shape": shape, "over": {}, "dtype": dt, "tag": "dtype"})
+        for d in ("coords.val", "charges.val"):
+            for v in vals:
+                if dt == "float16" and v in ("1e-9", "16777217"):
+                    pass  # kept: the snapshot is taken from the object, i.e. after its own rounding
+                cases.append({"kind": "mol", "shape": [3, 2, 1], "over": {d: v}, "dtype": dt, "tag": "dtype"})
+    for form in ASSIGN_FORMS:
+        for kind, shape in (("mol", [3, 2, 1]), ("ens", [3, 2, 2]), ("conf", [3, 2, 2])):
+            cases.append({"kind": kind, "shape": shape, "over": {}, "assign": form, "tag": "assign"})
+            if thorough:
+                for d in ("coords.val", "charges.val", "weights.val"):
+                    if d == "weights.val" and kind == "mol":
+                        continue
+                    for v in vals:
+                        cases.append({"kind": kind, "shape": shape, "over": {d: v}, "assign": form, "tag": "assign"})
+    return cases
+
+
 def gen_shape_cases(A, thorough):
     cases = []
     for na in range(4):
@@ -633,7 +693,7 @@ def eval_cases(ctx, A, cases, seed, minimise=True):
             objs, exps = [], []
             for c in blk:
                 try:
-                    o = build(A, c["kind"], tuple(c["shape"]), c["over"], seed, bonds=c.get("bonds"))
+                    o = build(A, c["kind"], tuple(c["shape"]), c["over"], seed, bonds=c.get("bonds"), dtype=c.get("dtype"), assign=c.get("assign"))
                     e = snapshot(o)
                 except Exception as ex:
                     raise HarnessError(f"cannot construct case {c}: {type(ex).__name__}: {ex}")
@@ -693,6 +753,8 @@ def judge(ctx, case, lib, exp, res, obj, mini=None):
             ctx.violation(f"{lib}|put:source-object-altered", "storing an object in a library changed the object itself", _case(case, "v2"))
     except Exception:
         pass
+    pre = f"arrays[{case['dtype']}-subclass]|" if case.get("dtype") else (f"arrays[assigned-as-{case['assign']}]|" if case.get("assign") else "")
+    sigs = [(pre + sg, e_, sy) for sg, e_, sy in sigs]
     for sig, enc, symptom in sigs:
         rep = case
         if mini is not None and sig not in ctx.violations:
@@ -705,6 +767,9 @@ def _case(case, enc):
     d = {"mode": "roundtrip", "kind": case["kind"], "shape": case["shape"], "over": case["over"], "enc": enc, "tag": case.get("tag")}
     if case.get("bonds") is not None:
         d["bonds"] = case["bonds"]
+    for k in ("dtype", "assign"):
+        if case.get(k):
+            d[k] = case[k]
     return d
 
 
@@ -722,7 +787,7 @@ class Minimiser:
         key = case_key(case)
         if key not in self.memo:
             try:
-                o = build(self.A, case["kind"], tuple(case["shape"]), case["over"], self.seed, bonds=case.get("bonds"))
+                o = build(self.A, case["kind"], tuple(case["shape"]), case["over"], self.seed, bonds=case.get("bonds"), dtype=case.get("dtype"), assign=case.get("assign"))
                 exp = snapshot(o)
             except Exception:
                 self.memo[key] = set()
@@ -2449,7 +2514,10 @@ def repro_code(case, lib, enc):
     L.append("# (written for seed 0: the focus atom / bond is index 0, the focus conformer the last one)")
     el0 = val("atom.element") if "atom.element" in over else "'C'"
     atoms = [f"Atom({el0})"] + [f"Atom('{BASE_EL[j]}')" for j in range(1, na)]
-    if case["kind"] == "mol":
+    if case["kind"] == "mol" and case.get("dtype"):
+        L.append(f"class MoleculeX(ml.Molecule, coords_dtype=np.dtype('{np.dtype(DTYPE_HOOK[case['dtype']]).str}')): pass    # the documented subclass hook")
+        L.append(f"obj = MoleculeX([{', '.join(atoms[:na])}])")
+    elif case["kind"] == "mol":
         L.append(f"obj = ml.Molecule([{', '.join(atoms[:na])}])")
         if na:
             L.append(f"obj.coords = np.arange({na * 3}.).reshape({na}, 3); obj.atomic_charges = np.arange({na}.)")
@@ -2495,6 +2563,8 @@ def repro_code(case, lib, enc):
     for d in over:
         if d.startswith("mol."):
             L.append(f"obj.{d[4:]} = {val(d)}     # assigned after construction")
+    if case.get("dtype") or case.get("assign"):
+        L.append("print('stored arrays:', obj.coords.dtype, obj.coords.tolist(), obj.atomic_charges.tolist())")
     L.append("print('stored :', obj.name, obj.charge, obj.mult, obj.n_bonds, [(obj.atoms.index(b.a1), obj.atoms.index(b.a2), b.label) for b in obj.bonds])")
     if case["kind"] == "conf":
         L.append("obj = obj[obj.n_conformers - 1]   # a Conformer view")
@@ -2506,7 +2576,7 @@ def repro_code(case, lib, enc):
     L.append(f"    lib = ml.{cls}(p, readonly=False)")
     L.append("    with lib.writing(): lib['k'] = obj")
     L.append("    with lib.reading(): back = lib['k']")
-    L.append("    print(enc, 'read back:', back.name, back.charge, back.mult, back.n_bonds, [(back.atoms.index(b.a1), back.atoms.index(b.a2), b.label) for b in back.bonds], back.coords.shape)")
+    L.append("    print(enc, 'read back:', back.name, back.charge, back.mult, back.n_bonds, [(back.atoms.index(b.a1), back.atoms.index(b.a2), b.label) for b in back.bonds], back.coords.shape, back.coords.tolist(), back.atomic_charges.tolist())")
     return "\n".join(L)
 
 
@@ -2574,6 +2644,7 @@ def run(ctx):
         "attribute dictionaries use str keys and native msgpack types only (numpy arrays, integers >= 2**64 and non-str keys are not 'msgpack-able' in the sense of the quantifier)",
         "v1: compared on the fields of the v1 schema (no formal_charge/formal_spin/attrib of atoms, no attrib of bonds and molecules); a v1 library is a UKV file whose h1 header is b'ML10Library'",
         "a Conformer view stored in a MoleculeLibrary reads back as a Molecule with the conformer's fields",
+        "the object's own arrays may have any dtype the documented Molecule subclass hook (coords_dtype=) accepts - float32, float64, '>f4', '<f4', float16, '>f8' (an integer dtype cannot be constructed; ConformerEnsemble has no such hook) - and arrays may be handed to the setters in any float dtype, byte order and memory layout (the setters convert to float64): in every case the values read back equal the object's values at single precision",
         "objects are built by assigning record-level and atom fields after construction and by appending explicit Bond objects (never connect()), so that the stored object holds exactly the stated combination; bond sequences are compared in order and direction, including several bonds over one atom pair and a bond from an atom to itself; atoms of an ensemble are given through an atom list (the 0-atom ensemble through n_atoms=0)",
         "when v2 and v1 fail on the same case with the same symptom the violation is reported once with enc=any",
         "an object may be stored while its Atom objects are also atoms of another container (created without copying, alive or already collected): what is stored is the object as its own atom and bond lists describe it",
@@ -2623,6 +2694,9 @@ def run(ctx):
     # bond topologies: few, evaluated in the master in a fixed order (deterministic counterexample)
     topo = gen_topology_cases(thorough)
     eval_cases(ctx, A, topo, ctx.seed, minimise=False)
+    dts = gen_dtype_cases(A, thorough)
+    eval_cases(ctx, A, dts, ctx.seed, minimise=False)
+    ctx.bound["array_dtype_cases"] = {"cases": len(dts), "molecule_subclass_dtypes": list(DTYPE_HOOK), "assigned_as": ASSIGN_FORMS, "excluded": "integer coords_dtype (construction fails: NaN fill); ConformerEnsemble has no coords_dtype hook; setters convert to float64"}
     ctx.bound["bond_topology_cases"] = len(topo)
     sizes = list(size_catalog(thorough))
     ctx.bound["size_class_cases"] = sizes
@@ -2703,4 +2777,7 @@ def replay(ctx, case):
     c = {"kind": case["kind"], "shape": case["shape"], "over": case["over"], "tag": case.get("tag") or "replay"}
     if case.get("bonds") is not None:
         c["bonds"] = [[b[0], b[1], dict(b[2] or {})] for b in case["bonds"]]
-    eval_cases(ctx, A, [c], ctx.seed)
+    for k in ("dtype", "assign"):
+        if case.get(k):
+            c[k] = case[k]
+    eval_cases(ctx, A, [c], ctx.seed, minimise=False)
